@@ -5,11 +5,18 @@ MODES5 = [0, 1, 4, 6, 2]          # zero symmetric reflect periodic periodizatio
 MODE_NAME = {0: 'zero', 1: 'symmetric', 2: 'periodization', 4: 'reflect', 6: 'periodic'}
 
 
-def int_filter(rng, L, amp=3):
-    """random small-integer filter of exact length L (non-zero ends), made asymmetric"""
+def int_filter(rng, L, amp=3, zero_ends=0.12):
+    """random small-integer filter of length L, made asymmetric; with probability `zero_ends` (and L >= 4)
+    one or both end taps are zero, as in tables stored zero-padded (e.g. qshift_06)"""
     while True:
         h = [rng.randint(-amp, amp) for _ in range(L)]
-        if h[0] == 0 or h[-1] == 0:
+        if L >= 4 and rng.random() < zero_ends:
+            k = rng.choice([0, 1, 2])
+            if k in (0, 2): h[0] = 0
+            if k in (1, 2): h[-1] = 0
+            if all(v == 0 for v in h):
+                continue
+        elif h[0] == 0 or h[-1] == 0:
             continue
         if L > 1 and h == h[::-1]:
             continue
@@ -21,6 +28,13 @@ def int_filter(rng, L, amp=3):
 def int_tensor(rng, shape, amp=9):
     n = int(np.prod(shape))
     return np.array([rng.randint(-amp, amp) for _ in range(n)], dtype=np.float64).reshape(shape)
+
+
+def batch_channels(rng, big=0.06):
+    """(N, C) with occasional wide channel counts (fast paths keyed on the channel count)"""
+    if rng.random() < big:
+        return rng.choice([(1, 33), (1, 17), (2, 16), (1, 64)])
+    return rng.choice([(1, 1), (1, 1), (2, 1), (1, 2), (2, 3)])
 
 
 def impulse(shape, idx):
